@@ -16,6 +16,18 @@ class int_to_varbyteint:
         return wire.compact_size(inp)
 
 
+@contract('bitcoinlib.encoding.int_to_varbyteint', case='out-of-range', props=('C18',))
+class int_to_varbyteint_out_of_range:
+    """Outside 0..2^64-1 there is no CompactSize: the encoder refuses (OverflowError from int.to_bytes) instead of returning bytes that would decode to
+    another value - for every negative integer and every integer >= 2^64."""
+    params = {'inp': Int}
+
+    def requires(inp):
+        return inp < 0 or inp >= 2 ** 64
+
+    raises_iff = {OverflowError: lambda inp: True}
+
+
 @contract('bitcoinlib.encoding.varbyteint_to_int', props=('C18', 'C06'))
 class varbyteint_to_int:
     """Decoding the shortest-form CompactSize of n (followed by anything) gives (n, encoded length)."""
